@@ -174,6 +174,9 @@ func c17EvalList(env *core.Env, kinds []string) {
 		}
 		if !okE && !okU {
 			env.Violatef("C17/evalopts/wrong-error/"+failClass(expExisting, expUnsupported), "evaluate options [%s]: error %q matches none of the expected sentinels", list, r.Err)
+		} else if (expExisting && !okE) || (expUnsupported && !okU) {
+			// every failing option is reported with its own error, whatever else fails in the same call
+			env.Violatef("C17/evalopts/one-failure-hides-another", "evaluate options [%s]: a name collides (ErrExistingConstant: %v) and a value is unsupported (ErrUnsupportedType: %v), but the error %q identifies only one of them", list, okE, okU, r.Err)
 		}
 		env.Cover("nothing-evaluated")
 		if probe.calls != 0 {
@@ -387,7 +390,10 @@ func c17Contract(env *core.Env) {
 		env.Violatef("C17/ucum", "`%%ucum` => %s", trunc(r.Short(), 100))
 	}
 	// unknown variable: evaluation error (at the root, in arguments, in criteria)
-	for _, src := range []string{"%nosuch", "iif(true, %nosuch)", "Patient.name.where(%nosuch = 1)", "Patient.name.select(%nosuch)", "%nosuch.count()"} {
+	for _, src := range []string{"%nosuch", "iif(true, %nosuch)", "Patient.name.where(%nosuch = 1)", "Patient.name.select(%nosuch)", "%nosuch.count()",
+		// reached for some items only
+		"Patient.name.select(iif(use = 'official', %nosuch, family))", "Patient.name.select(iif(use.exists(), family, %nosuch))", "Patient.name.where(iif(use.exists(), %nosuch = 1, true))",
+		"Patient.name.exists(iif(use.exists(), true, %nosuch = 1))", "Patient.name.all(iif(use.exists(), true, %nosuch = 1))", "Patient.name.given.select(iif($this = 'Bée', %nosuch, $this))"} {
 		rr := fx.Eval(env, src, in, nil, nil)
 		env.Cover("unknown-variable")
 		if rr.IsPanic() {
